@@ -51,6 +51,8 @@ def _hist(args):
             else:
                 kk = (fnum(o.get_kappa()), fnum(o.get_kappa_after_phosphorylation())) if arg == 0 else \
                      (fnum(o.get_kappa_after_phosphorylation()), fnum(o.get_kappa()))[::-1]
+                if want_dist and len(o.get_phosphosites()) <= want_dist:
+                    o.get_full_phosphostatus_kappa_distribution()      # asked mid-history too; the final one is what Coq compares
             rec.append(([int(x) for x in o.get_phosphosites()], o.get_phosphosequence(), o.get_sequence(), kk))
         ka = fnum(o.get_kappa_after_phosphorylation())
         stys = [int(x) for x in o.get_all_phosphorylatable_sites()]
@@ -78,6 +80,16 @@ def build(ctx):
                 form = rng.random()
                 ops.append(('set', p[0] if form < 0.2 else tuple(p) if form < 0.4 else p))
         jobs.append((s, ops, ctx.pick(4, 6)))
+    # the same site set entered in two different orders around a clear, with the distribution asked in between
+    for _ in range(ctx.pick(40, 200)):
+        s = rich(rng, rng.randint(4, 24))
+        sty = [i + 1 for i, c in enumerate(s) if c in 'STY']
+        if len(sty) < 2:
+            continue
+        sites = rng.sample(sty, rng.randint(2, min(3, len(sty))))
+        perm = sites[::-1] if rng.random() < 0.5 else rng.sample(sites, len(sites))
+        mid = [('clear', None)] if rng.random() < 0.7 else [('clear', None), ('set', sites[:1]), ('query', 1), ('clear', None)]
+        jobs.append((s, [('set', sites), ('query', rng.randrange(2))] + mid + [('set', tuple(perm))], 4))
     jobs.append(('SKKKYKKT', [('set', [0]), ('query', 0), ('set', [-1, -8, 9, 100]), ('set', 5), ('query', 1), ('set', (5, 1, 1))], 4))
     res = pmap(_hist, jobs, chunk=8)
     cases = []
